@@ -49,6 +49,7 @@ impl<T> AtomicWeak<T> {
     /// Panics if `order` is `Release` or `AcqRel`.
     #[inline]
     pub fn load<'g>(&self, order: Ordering, guard: &'g Guard) -> WeakSnapshot<'g, T> {
+        vp!(WLINK_LOAD);
         WeakSnapshot::from_raw(self.link.load(order), guard)
     }
 
@@ -60,6 +61,7 @@ impl<T> AtomicWeak<T> {
     pub fn store(&self, ptr: Weak<T>, order: Ordering, guard: &Guard) {
         let new_ptr = ptr.ptr;
         forget(ptr);
+        vp!(WLINK_SWAP);
         let old_ptr = self.link.swap(new_ptr, order);
         unsafe {
             if let Some(cnt) = old_ptr.as_raw().as_mut() {
@@ -75,6 +77,7 @@ impl<T> AtomicWeak<T> {
     #[inline(always)]
     pub fn swap(&self, new: Weak<T>, order: Ordering) -> Weak<T> {
         let new_ptr = new.into_raw();
+        vp!(WLINK_SWAP);
         let old_ptr = self.link.swap(new_ptr, order);
         Weak::from_raw(old_ptr)
     }
@@ -105,6 +108,7 @@ impl<T> AtomicWeak<T> {
         failure: Ordering,
         guard: &'g Guard,
     ) -> Result<Weak<T>, CompareExchangeError<Weak<T>, WeakSnapshot<'g, T>>> {
+        vp!(WLINK_CAS);
         match self
             .link
             .compare_exchange(expected.ptr, desired.ptr, success, failure)
@@ -150,6 +154,7 @@ impl<T> AtomicWeak<T> {
         failure: Ordering,
         guard: &'g Guard,
     ) -> Result<Weak<T>, CompareExchangeError<Weak<T>, WeakSnapshot<'g, T>>> {
+        vp!(WLINK_CAS);
         match self
             .link
             .compare_exchange_weak(expected.ptr, desired.ptr, success, failure)
@@ -202,6 +207,7 @@ impl<T> AtomicWeak<T> {
     ) -> Result<WeakSnapshot<'g, T>, CompareExchangeError<WeakSnapshot<'g, T>, WeakSnapshot<'g, T>>>
     {
         let desired_raw = expected.ptr.with_tag(desired_tag);
+        vp!(WLINK_CAS);
         match self
             .link
             .compare_exchange(expected.ptr, desired_raw, success, failure)
